@@ -353,7 +353,7 @@ def user_matrix(it, rows, cols, name, fmt="coo", region="USER", nnz=None):
     nnz = p.int(name + "_nnz") if nnz is None else nnz
     if not isinstance(nnz, int):
         p.assume(nnz >= 0)
-    mk = lambda nm, sort, kind: Arr.new(Vec(nnz, (lambda A: (lambda k: z3.Select(A, _iv(k))))(z3.Array(p.fresh_name(name + nm), z3.IntSort(), sort)), kind), region=region)
+    mk = lambda nm, sort, kind: Arr.new(Vec(nnz, (lambda A: (lambda k: z3.Select(A, p.auto_index(k, nnz))))(z3.Array(p.fresh_name(name + nm), z3.IntSort(), sort)), kind), region=region)
     row, col, data = mk("_row", z3.IntSort(), "int"), mk("_col", z3.IntSort(), "int"), mk("_data", z3.RealSort(), "real")
     rv, cv = row.vec(), col.vec()
     p.add_ufact(UFact(1, lambda k: z3.And(rv.f(k) >= 0, rv.f(k) < rows, cv.f(k) >= 0, cv.f(k) < cols), [(0, nnz)], "coo-coordinates-in-range"))
